@@ -73,6 +73,11 @@ func classesC06(c *Case, exp *hx.Expect) (bool, []string) {
 		}
 		cl = append(cl, "fault-kind="+e.Kind)
 	}
+	for _, f := range c.Faults {
+		if f.Call > 0 {
+			cl = append(cl, "fault-on-kth-invocation-only")
+		}
+	}
 	switch n := len(c.Faults); {
 	case n == 0:
 		cl = append(cl, "faults=0(coercion only)")
@@ -145,6 +150,18 @@ func TestC06(t *testing.T) {
 		for i, s := range sites {
 			sitesTotal++
 			one(cloneWithFaults(base, []hx.Fault{mkFault(s, fmt.Sprintf("s%d", i))}))
+			// the same field of the same object invoked several times in the request (a response key
+			// selected twice, a shared or revisited object): only the k-th invocation fails
+			if calls := exp0.Calls[s]; calls >= 2 {
+				for k := 1; k <= minInt(calls, 3); k++ {
+					fl := mkFault(s, fmt.Sprintf("s%dc%d", i, k))
+					if fl.Kind == "nth" {
+						continue
+					}
+					fl.Call = k
+					one(cloneWithFaults(base, []hx.Fault{fl}))
+				}
+			}
 		}
 		// sampled pairs / triples
 		if len(sites) >= 2 {
